@@ -84,6 +84,11 @@ def detect(name, checks):
     rc, out = sh("git -C /repo status --porcelain")
     if out.strip():
         print("/repo is not clean; refusing"); return
+    # evidence written while a seed is applied must not replace the real evidence
+    bak = "/var/tmp/verif-evidence-backup-%d" % os.getpid()
+    shutil.rmtree(bak, ignore_errors=True)
+    if os.path.isdir("/verif/evidence"):
+        shutil.copytree("/verif/evidence", bak)
     rc, out = sh(f"git -C /repo apply {dst}/patch.diff")
     if rc:
         print("patch does not apply to /repo:", out); return
@@ -101,6 +106,10 @@ def detect(name, checks):
     finally:
         sh("git -C /repo checkout -- . && git -C /repo clean -fdq")
         shutil.rmtree("/verif/replays", ignore_errors=True)
+        if os.path.isdir(bak):
+            shutil.rmtree("/verif/evidence", ignore_errors=True)
+            shutil.copytree(bak, "/verif/evidence")
+            shutil.rmtree(bak, ignore_errors=True)
     json.dump(meta, open(os.path.join(dst, "meta.json"), "w"), indent=1)
 
 
